@@ -72,8 +72,10 @@ def main():
     t0 = time.time()
     results = []
     try:
-        for u in pinfo['units']:
-            results.append(runner.run_unit(u, tier=tier, seed=seed, keep=a.keep))
+        from concurrent.futures import ThreadPoolExecutor
+        with ThreadPoolExecutor(max_workers=4) as ex:
+            futs = [ex.submit(runner.run_unit, u, tier, seed, a.keep) for u in pinfo['units']]
+            results = [f.result() for f in futs]
     except TemplateError as e:
         print("TOOL ERROR: %s" % e)
         return 2
